@@ -277,9 +277,9 @@ func (fv *FV) callStatic(st *State, ins ssa.CallInstruction, v ssa.Value, callee
 	if callee.Pkg != nil && fv.eng.inRepo(callee.Pkg.Pkg.Path()) || (callee.Parent() != nil) {
 		// repo function without a contract: havoc what it may write (inferred), arbitrary results
 		mods := fv.eng.modFamilies(callee)
+		fv.bumpWM(st)
 		fv.havocKeys(st, mods, "call "+callee.Name())
 		fv.frameCheckCallee(st, mods, "call "+callee.Name())
-		fv.bumpWM(st)
 		rs := fv.freshResults(st, sig, "r_"+sanitize(callee.Name()))
 		fv.assumeValidResults(st, sig, rs)
 		fv.setResults(st, v, rs)
@@ -297,10 +297,10 @@ func shortName(n string) string {
 
 func (fv *FV) externalCall(st *State, ins ssa.CallInstruction, v ssa.Value, sig *types.Signature, name string, args []string) {
 	cc := ins.Common()
+	fv.bumpWM(st)
 	for i, a := range cc.Args {
 		fv.havocPointee(st, a, args[i])
 	}
-	fv.bumpWM(st)
 	rs := fv.freshResults(st, sig, "x_"+sanitize(lastDot(name)))
 	fv.assumeValidResults(st, sig, rs)
 	fv.setResults(st, v, rs)
@@ -511,9 +511,9 @@ func (fv *FV) applyContractCore(st *State, v ssa.Value, c *Contract, pkg *types.
 		fv.obligeSpec(st, "pre", label, ctx, r, pos, nil, "requires of "+c.FuncName)
 	}
 	pre := st.clone()
-	// frame
-	fv.applyModifies(st, ctx, c, pkg, fname)
+	// frame (the watermark moves first: havocked locations may hold objects the callee allocated)
 	fv.bumpWM(st)
+	fv.applyModifies(st, ctx, c, pkg, fname)
 	// results
 	rnames := fv.resultNames(c, sig)
 	rs := fv.freshResults(st, sig, "r_"+sanitize(fname))
@@ -537,7 +537,9 @@ func (fv *FV) applyContractCore(st *State, v ssa.Value, c *Contract, pkg *types.
 			fv.specErrs = append(fv.specErrs, fmt.Sprintf("%s: ensures of %s: %v", fv.relName, c.FuncName, err))
 			continue
 		}
+		fv.origin = e.Name
 		fv.assume(st, t)
+		fv.origin = ""
 	}
 	if fv.catch != nil {
 		fv.catch.rs = rs
